@@ -90,6 +90,8 @@ def run_phase(ctx, phase, args, nitems, so, shards=1, catseed=0, timeout=1500, p
                 ctx.log(d["msg"])
             elif e == "done":
                 done = d["n"]
+            else:
+                ctx.__dict__.setdefault("_events", []).append(d)
         if p.returncode == 77:
             raise MachineryError("%s worker: harness error\n%s" % (phase, out[-3000:]))
         if done is not None and p.returncode == 0:
@@ -101,7 +103,7 @@ def run_phase(ctx, phase, args, nitems, so, shards=1, catseed=0, timeout=1500, p
         m = re.search(r"SUMMARY: (\w+): ([\w-]+)(?: [^\n]* in (\w+))?", out)
         if m:
             what = "%s:%s" % (m.group(2), m.group(3) or "")
-        m2 = re.search(r"(\w+\.c):\d+: (\w+): Assertion", out)
+        m2 = re.search(r"(\w+\.[ch]):\d+: (\w+): Assertion", out)
         if m2:
             what = "assert:%s" % m2.group(2)
         m3 = re.search(r"runtime error: ([^\n]{0,80})", out)
@@ -113,7 +115,9 @@ def run_phase(ctx, phase, args, nitems, so, shards=1, catseed=0, timeout=1500, p
             raise MachineryError("%s worker failed before the first item (rc %s)\n%s" % (phase, p.returncode, out[-3000:]))
         if "Traceback (most recent call last)" in out and "Sanitizer" not in out and not m2:
             raise MachineryError("%s worker: python error\n%s" % (phase, out[-3000:]))
-        ctx.violation("crash:%s:%s" % (phase, what), "the library crashed / did not return while executing %s\n%s" % (
+        ckey = "crash:%s:%s" % (phase, what)
+        if ckey not in [v["key"] for v in ctx.violations]:
+          ctx.violation(ckey, "the library crashed / did not return while executing %s\n%s" % (
             json.dumps(begun.get("desc") if begun else None)[:1500], out[-2500:]), dict(kind="crash", phase=phase, item=begun))
         if begun is not None and restarts < 6:
             job["start"] = begun["i"] + 1
